@@ -106,6 +106,36 @@ Proof.
   change (Z.to_nat (0 + 1)) with 1%nat. cbn [seq map list_sum fold_right]. unfold rem. cbn. lia.
 Qed.
 
+(* preservation, the generic part: a transition that keeps the id counter and does not increase the remaining
+   allocation of any future keeps the invariant; in particular every transition that only reads the heap *)
+Lemma list_sum_le (f g : nat -> nat) l : (forall k, In k l -> (f k <= g k)%nat) -> (list_sum (map f l) <= list_sum (map g l))%nat.
+Proof.
+  induction l as [|a l IH]; intros H; simpl; [lia|].
+  pose proof (H a (or_introl eq_refl)). assert ((list_sum (map f l) <= list_sum (map g l))%nat) by (apply IH; intros k Hk; apply H; right; exact Hk). lia.
+Qed.
+
+Lemma alloc_inv_pres p spec spec' m fr s m' fr' s' :
+  top_next s' = top_next s ->
+  (forall k, (rem spec' (rn_of m') s' k <= rem spec (rn_of m) s k)%nat) ->
+  alloc_inv p spec (mkC m fr s) -> alloc_inv p spec' (mkC m' fr' s').
+Proof.
+  unfold alloc_inv, pot. cbn [c_st c_mode]. intros Et Hr H. rewrite Et.
+  pose proof (list_sum_le (rem spec' (rn_of m') s') (rem spec (rn_of m) s) (seq 0 (Z.to_nat (top_next s))) (fun k _ => Hr k)). lia.
+Qed.
+
+Lemma rem_view spec rn s s' k : heap s' = heap s -> rem spec rn s' k = rem spec rn s k.
+Proof. intros Hh. unfold rem, get. rewrite Hh. reflexivity. Qed.
+
+(* the remaining allocation of a suspended task does not depend on how the ghost spec is extended to new futures *)
+Lemma rem_ext spec spec' s k :
+  (forall u tk g, get u s = Some (mkFut None (KTask tk)) -> tk_gen tk = Some g ->
+     unwrap (look_spec spec') (tk_last tk) = unwrap (look_spec spec) (tk_last tk)) ->
+  rem spec' None s k = rem spec None s k.
+Proof.
+  intros H. unfold rem. destruct (get [Z.of_nat k] s) as [[[o|] [tk| | |]]|] eqn:Hg; try reflexivity.
+  destruct (tk_gen tk) as [g|] eqn:Eg; [|reflexivity]. rewrite (H _ tk g Hg Eg). reflexivity.
+Qed.
+
 (* ------------------------------------------------------------------ consequences *)
 (* termination without ANY hypothesis about the run's modes: few futures *)
 Theorem terminates_if_few_futures_tree P p N :
